@@ -906,7 +906,7 @@ func famMethods(r *rng.R, id int) *famOut {
 	p := fmt.Sprintf("M%d", id)
 	f := &famOut{}
 	withCtx := r.Chance(35)
-	fallible := map[string]bool{"Label": r.Chance(70), "NTitle": r.Chance(40), "Via": r.Chance(40), "Birth": r.Chance(75), "NBirth": r.Chance(60)}
+	fallible := map[string]bool{"Label": r.Chance(70), "NTitle": r.Chance(40), "Via": r.Chance(40), "Birth": r.Chance(75), "NBirth": r.Chance(60), "Title": r.Chance(30)}
 	// matchIgnoreCase with fields that are case variants of method names: the exactly named method wins over the field
 	// (target Title<p>); a field and a method that both match only case-insensitively are an error (target Dual<p>)
 	ic := r.Chance(45)
@@ -956,7 +956,8 @@ type %[1]sOut struct {
 			fmt.Fprintf(&cb, "func (s %[1]s) %[2]s(%[3]s) string {\n\treturn rt.Stamp(%[2]q, %[4]s)\n}\n\n", recv, name, params, args)
 		}
 	}
-	meth(p+"In", "Title"+p, false, false)
+	// the AUTO-MATCHED method may be fallible too: a method without error result must then be refused, also under ignoreMissing
+	meth(p+"In", "Title"+p, fallible["Title"], false)
 	if caseTargets != "" {
 		meth(p+"In", "DuAl"+p, false, false) // with field DUAL<P>: two case-insensitive candidates for Dual<p>, no exact one
 	}
@@ -979,6 +980,9 @@ type %[1]sOut struct {
 	}
 	if ic {
 		b.WriteString("// goverter:matchIgnoreCase\n")
+	}
+	if r.Chance(30) {
+		b.WriteString("// goverter:ignoreMissing\n")
 	}
 	b.WriteString("type " + p + "C interface {\n")
 	var lines []string
@@ -1012,13 +1016,13 @@ type %[1]sOut struct {
 	} else {
 		opt(92, "ignore Ctx", "map CtxTitle"+p+" Ctx")
 	}
-	anyFallible := fallible["Label"] || fallible["NTitle"] || fallible["Via"] || fallible["Birth"] || fallible["NBirth"]
+	anyFallible := fallible["Label"] || fallible["NTitle"] || fallible["Via"] || fallible["Birth"] || fallible["NBirth"] || fallible["Title"]
 	ctxP := ""
 	if withCtx {
 		ctxP = ", ctxTag string"
 	}
 	res := func(t string) string {
-		if anyFallible && r.Chance(90) || r.Chance(15) {
+		if anyFallible && r.Chance(80) || r.Chance(15) {
 			return "(" + t + ", error)"
 		}
 		return t
